@@ -17,11 +17,8 @@ OBLIGATIONS = [
        variants=[{'ELEM': 4}, {'ELEM': 2, 'LIM': 64}] + [{'ELEM': 3, 'RC': r, 'REFL': f} for r in range(4) for f in (0, 1)] + [{'ELEM': 5, 'REC': r, 'VERT': v, 'LIM': 64} for r in (23, 24, 25) for v in (0, 1)] + [{'ELEM': 6, 'CT': t, 'LIM': 64} for t in range(26)], unwind=20, timeout=400, mem_gb=12, nvec=5),
     Ob('reader_properties', 'C04/rd_oas.c', [RO], ir='ni', stubs=TOKSTUBS, defines={'RC': 0, 'REFL': 0, 'ELEM': 7}, wrap_files=True,
        what='read_oas on a RECTANGLE followed by two PROPERTY records: inline name, explicit value list [unsigned integer, PROPSTRING reference], then re-use of name and value list from the modal variables (PROPERTY with V=1 / LAST_PROPERTY), the PROPSTRING defined afterwards: both properties carry the name and [the integer - still an integer -, the referenced string], in order',
-       bound='one element, two properties, two values; the integer value arbitrary (64 bit); reference types 13 / 14 / 15',
-       variants=[{'PREC': 28, 'STRREF': 0}, {'PREC': 29, 'STRREF': 1}], unwind=20, timeout=900, mem_gb=14, mem_est_gb=10, nvec=5),
-    Ob('reader_properties_all', 'C04/rd_oas.c', [RO], ir='ni', stubs=TOKSTUBS, defines={'RC': 0, 'REFL': 0, 'ELEM': 7}, wrap_files=True,
-       what='as reader_properties, all six combinations of the re-use record and the reference type', bound='as reader_properties',
-       variants=[{'PREC': r, 'STRREF': k} for r in (28, 29) for k in (0, 1, 2)], unwind=20, timeout=1200, mem_gb=14, mem_est_gb=10, nvec=5, tier='thorough'),
+       bound='one element; two properties with two values (reference types 13 / 14 / 15, re-use by record 28 with V = 1 or by record 29), or one property with four values named through a PROPNAME table; integers 64 bit, real any bits, string byte arbitrary',
+       variants=[{'PREC': r, 'STRREF': k} for r in (28, 29) for k in (0, 1, 2)] + [{'ELEM': 12}], unwind=20, timeout=900, mem_gb=14, nvec=5),
     Ob('repetition_reader_vs_reference', 'C02/rep_oas.c', [P + '21oasis_read_repetitionERNS_11OasisStreamEdRNS_10RepetitionE', '_ZNK5gdstk10Repetition11get_offsetsERNS_5ArrayINS_4Vec2EEE'], ir='ni', stubs=[x for x in TOKSTUBS if 'real' not in x and 'string' not in x],
        model='ie', defines={'MODE': 1, 'B': 1, 'IE_BITS': 14, 'REAL_TOL': 1},
        what='oasis_read_repetition on a specification-encoded repetition field of each type 1..11 (grids with unsigned spaces, explicit x / y lists with and without grid multiplier, arbitrary lattices by g-delta, explicit displacement lists with and without grid): the Repetition built enumerates (real Repetition::get_offsets, C11) exactly the offsets the specification defines',
